@@ -223,6 +223,8 @@ class Kernel:
         self.trace_on = True             # line/opcode preemption enabled (off for 1-task runs)
         self.opcode_on = False
         self.last_progress = 0           # last step that was not a failed native try-lock
+        self.consec_spins = 0            # failed native try-locks since the last real progress
+        self.fair_tried = set()          # spinners already given their fair retry in a stalled round
 
     # -- logging ---------------------------------------------------------
     def ev(self, *a):
@@ -259,15 +261,21 @@ class Kernel:
     # -- scheduling ------------------------------------------------------
     def _runnable(self):
         out = []
-        lp = self.last_progress
-        for t in self.tasks:
+        tasks = self.tasks
+        for t in tasks:
             st = t.state
             if st == "runnable":
                 out.append(t)
-            elif st == "spinning" and lp > t.spin_mark:
-                # a failed native try-lock can only succeed after somebody made real
-                # progress (a step that was not itself a failed try-lock)
-                out.append(t)
+            elif st == "spinning":
+                # A failed native try-lock is worth retrying once some OTHER task has taken a step
+                # of any kind since (a native release is not a kernel step, so even another task's
+                # failed try-lock may have been preceded by one).  Endless rounds of retries with no
+                # real progress are cut off in _pick (consec_spins).
+                mark = t.spin_mark
+                for o in tasks:
+                    if o is not t and o.steps_at > mark:
+                        out.append(t)
+                        break
         return out
 
     def _fire_timer(self):
@@ -319,10 +327,30 @@ class Kernel:
                 break
         while True:
             r = self._runnable()
+            if r and self.consec_spins > 2 * len(self.tasks) + 2:
+                # whole rounds of retries failed with no real progress in between.  If a plainly
+                # runnable task exists the spinners are starving it (priority inversion under PCT:
+                # the lock holder has the lowest priority) - let it run.  Otherwise give EVERY
+                # spinner one more retry in task order, bypassing the strategy's priorities (a
+                # low-priority spinner whose lock was released natively may have been starved by
+                # two higher ones); only when all of them failed again do the spinners wait for a
+                # blocked task (fire its timer) or for each other (deadlock).
+                plain = [t for t in r if t.state == "runnable"]
+                if plain:
+                    r = plain
+                else:
+                    fair = [t for t in r if t.name not in self.fair_tried]
+                    if fair:
+                        self.fair_tried.add(fair[0].name)
+                        r = [fair[0]]
+                    else:
+                        r = []
             if r:
                 break
             if not self._fire_timer():
                 return None
+            self.consec_spins = 0
+            self.fair_tried = set()
         cur = self.cur
         ok = cur_ok and cur is not None and cur in r
         nxt = strat.choose(self, r, ok)
@@ -351,6 +379,11 @@ class Kernel:
         cur.steps_at = self.steps
         if not (type(loc) is tuple and loc[0] == "spin"):
             self.last_progress = self.steps
+            self.consec_spins = 0
+            if self.fair_tried:
+                self.fair_tried = set()
+        else:
+            self.consec_spins += 1
         if self.steps > self.max_steps:
             self.fail(Outcome.STEPLIMIT, f"step limit {self.max_steps} at {loc}")
         ll = self._last_loc
@@ -455,6 +488,8 @@ class Kernel:
             return
         self.steps += 1
         self.last_progress = self.steps
+        self.consec_spins = 0
+        self.fair_tried = set()
         t.steps_at = self.steps
         for j in t.joiners:
             self.unblock(j)
